@@ -110,5 +110,9 @@ def denver() -> nx.MultiDiGraph:
     return load_json_graph(DENVER_JSON)
 
 
+def manhattan() -> nx.MultiDiGraph:
+    return load_json_graph(MANHATTAN_DIR / "road_network" / "manhattan_network.json")
+
+
 def node_points(g: nx.MultiDiGraph):
     return [(d.get("y", d.get("lat")), d.get("x", d.get("lon"))) for _, d in g.nodes(data=True)]
